@@ -80,6 +80,12 @@ function new_loader(modname, mod_env)
     local fn = nil
     local msg = nil
     if type(content) == "string" then
+        if string.byte(content, 1) == 27 then
+            -- precompiled chunks bypass the checks of the compiler (the
+            -- bytecode verifier of Lua 5.1 is known to be unsound)
+            return nil, "module '" .. modname ..
+                "': binary chunk loading prohibited"
+        end
         fn, msg = loadstring(content, modname)
     else
         fn, msg = load(content, modname)
